@@ -21,7 +21,7 @@ RULE = ("cell = (full|diag density, R, D, correlation regime); structural oracle
 def cells(tier, seed):
     out = []
     Rs = (1, 3) if tier == "quick" else (1, 2, 3, 5)
-    Ds = (1, 2, 3) if tier == "quick" else (1, 2, 3, 4, 5)
+    Ds = (1, 2, 3, 5) if tier == "quick" else (1, 2, 3, 4, 5, 6)
     for diag in (False, True):
         for R in Rs:
             for D in Ds:
